@@ -332,7 +332,7 @@ func npmDef() sysDef {
 		},
 		targets: []string{"a", "b", "c"},
 		reqs:    NPMReqs,
-		decor:   []string{"opt", "dev", "peer", "bundle", "alias", "alias-c"},
+		decor:   []string{"opt", "dev", "peer", "bundle", "alias", "twin-devopt"},
 		apply: func(r *Req, d string) {
 			switch d {
 			case "opt":
@@ -347,6 +347,8 @@ func npmDef() sysDef {
 				r.Alias = "x"
 			case "alias-c":
 				r.Alias = "c" // the alias spells the name of a real package
+			case "twin-devopt":
+				r.TwinDevOpt = true
 			}
 		},
 		// package.json keys are unique: one version cannot declare two dependencies under one alias, nor an alias
@@ -656,9 +658,17 @@ func PyPISpaces() []*Space {
 	return []*Space{newSpace(d, "empty", nil), newSpace(d, "conflict", conflict), newSpace(d, "extras", extras), newSpace(d, "cycle-pre", cycle), newSpace(d, "repin", repin)}
 }
 
-// AllSpaces lists every family.
+// AllSpaces lists every family used for histories and schedules (C05). The npm alias-name family is left to C06: with
+// aliases that spell real package names the npm resolver has non-terminating inputs (DESIGN 9.2), and a history
+// check resolves every universe dozens of times.
 func AllSpaces() []*Space {
-	return append(append(NPMSpaces(), MavenSpaces()...), PyPISpaces()...)
+	var out []*Space
+	for _, sp := range append(append(NPMSpaces(), MavenSpaces()...), PyPISpaces()...) {
+		if sp.Base != "alias-name" {
+			out = append(out, sp)
+		}
+	}
+	return out
 }
 
 // SortedCopy returns the strings sorted.
